@@ -11,3 +11,4 @@ for m in Orders Level LevelConc LevelSeq LevelSeqMC MCSeq Snapshot SnapMC Queue 
   (cd spec && java -cp /opt/veriftools/tla/tla2tools.jar:/opt/veriftools/tla/CommunityModules-deps.jar tla2sany.SANY $m.tla >/dev/null 2>&1) || { echo "SANY failed on $m"; exit 1; }
 done
 echo setup ok
+./check selftest | tail -1
